@@ -60,6 +60,21 @@ pub struct App;
 fn u_concrete(deps: &App, a: i32, b: i32) -> i32 {
     a - b
 }
+// a parameter named like the function: the un-mock arm calls the FUNCTION with the (renamed) bindings
+#[entrait(UNamedLikeFn, mock_api = UNamedLikeFnMock)]
+fn u_named_like_fn(deps: &impl core::any::Any, u_named_like_fn: i32, value: i32) -> i32 {
+    u_named_like_fn - value
+}
+#[entrait(UNamedLikeFnNoDeps, no_deps, mock_api = UNamedLikeFnNoDepsMock)]
+fn u_named_like_fn_no_deps(value: i32, u_named_like_fn_no_deps: i32) -> i32 {
+    u_named_like_fn_no_deps - value
+}
+#[entrait(pub UNamedLikeFnMod, mock_api = UNamedLikeFnModMock)]
+pub mod u_named_like_fn_mod {
+    pub fn inner_named<D>(deps: &D, inner_named: i32, value: i32) -> i32 {
+        inner_named - value
+    }
+}
 // a trait OBJECT as dependency is a concrete dependency type, not a generic one
 #[entrait(UDyn, mock_api = UDynMock)]
 fn u_dyn(deps: &dyn core::any::Any, a: i32, b: i32) -> i32 {
